@@ -56,7 +56,7 @@ def instances(tier, seed):
     out.append(dict(label='set_linked_disc n=4,2,4 src=0', kind='set_linked_disc', ns=[4, 2, 4], src=0))
     out.append(dict(label='set_linked_mixed', kind='set_linked_mixed'))
     out.append(dict(label='set_other_untouched', kind='set_other'))
-    for name in ('dv', 'dv_single', 'dv_linked', 'dv_linked_late', 'dv_or_existence', 'dv_or_direct', 'dv_same_name', 'dv_linked3_cond',
+    for name in ('dv', 'dv_single', 'dv_linked', 'dv_linked_late', 'dv_linked_interleaved', 'dv_or_existence', 'dv_or_direct', 'dv_same_name', 'dv_linked3_cond',
                  'conn_infeasible_dv', 'conn_cond_choice_dv'):
         out.append(dict(label=f'decode_dv {name}', kind='decode_dv', template=name))
     # seeded random graphs with design-variable nodes (pools/dsg_random.py), bounded so that the sweep stays small
